@@ -11,10 +11,14 @@ from harness import families as F, pipeline as P
 
 HNAME = "harness.guard"
 SHAPES = ["ok", "g1_other_symbol", "g2_lowercase", "g3_no_define", "g3_other_define", "g4_double", "g5_decl_before",
-          "g6_decl_after", "g7_no_guard", "ok_dotted_body2"]
+          "g6_decl_after", "g7_no_guard", "ok_dotted_body2", "g5_decl_before_no_gap", "g5_define_before", "g5_decl_before_no_header",
+          "g5_two_decls_before", "g5_decl_after_comment", "g6_decl_after_no_gap", "ok_no_gap_after_header"]
 EXPECT = {"ok": None, "ok_dotted_body2": None, "g1_other_symbol": "HEADER_PROT_NAME", "g2_lowercase": "HEADER_PROT_UPPER",
           "g3_no_define": "HEADER_PROT_NODEF", "g3_other_define": "HEADER_PROT_NODEF", "g4_double": "HEADER_PROT_MULT",
-          "g5_decl_before": "HEADER_PROT_ALL", "g6_decl_after": "HEADER_PROT_ALL_AF", "g7_no_guard": "HEADER_PROT_*"}
+          "g5_decl_before": "HEADER_PROT_ALL", "g6_decl_after": "HEADER_PROT_ALL_AF", "g7_no_guard": "HEADER_PROT_*",
+          "g5_decl_before_no_gap": "HEADER_PROT_ALL", "g5_define_before": "HEADER_PROT_ALL", "g5_decl_before_no_header": "HEADER_PROT_ALL",
+          "g5_two_decls_before": "HEADER_PROT_ALL", "g5_decl_after_comment": "HEADER_PROT_ALL", "g6_decl_after_no_gap": "HEADER_PROT_ALL_AF",
+          "ok_no_gap_after_header": None}
 NAMECH = "abcdefghijklmnopqrstuvwxyz0123456789_."
 
 
@@ -60,17 +64,25 @@ def build_text(shape, G, G2, hdrname):
             items.extend(x)
         else:
             items.extend(x)
-    for l in F.header_lines(hdrname):
-        add(l.default_text() + "\n")
-    add("\n")
+    if shape != "g5_decl_before_no_header":
+        for l in F.header_lines(hdrname):
+            add(l.default_text() + "\n")
+        if shape not in ("g5_decl_before_no_gap", "ok_no_gap_after_header"):
+            add("\n")
     proto = "int\tft_fn(int a);\n"
     body = "# include <unistd.h>\n\n" + proto if shape != "ok_dotted_body2" else (
         "# define LIMIT 10\n\ntypedef struct s_pt\n{\n\tint\tx;\n}\tt_pt;\n\n" + "int\tft_fn(t_pt *p);\n")
     if shape == "g7_no_guard":
         add(proto)
         return items
-    if shape == "g5_decl_before":
+    if shape in ("g5_decl_before", "g5_decl_before_no_gap", "g5_decl_before_no_header"):
         add(proto + "\n")
+    if shape == "g5_define_before":
+        add("#define LIMIT 10\n\n")
+    if shape == "g5_two_decls_before":
+        add(proto + "int\tft_gn(int b);\n\n")
+    if shape == "g5_decl_after_comment":
+        add("/* about */\n" + proto + "\n")
     sym = G2 if shape in ("g1_other_symbol", "g2_lowercase") else G
     add("#ifndef ")
     add(sym)
@@ -94,6 +106,8 @@ def build_text(shape, G, G2, hdrname):
         add("\n#endif\n")
     if shape == "g6_decl_after":
         add("\n" + "int\tft_gn(int b);\n")
+    if shape == "g6_decl_after_no_gap":
+        add("int\tft_gn(int b);\n")
     return items
 
 
